@@ -453,6 +453,10 @@ def check(reg, tier):
     need_reload_contract(reg)
     load_custom_contract(reg)
     coherence_lemma(reg)
+    # the SasView wrapper's class registry follows the module cache (contract shared with C11)
+    from vp.core import adopt
+    from contracts import c11
+    adopt(reg, c11._load_custom_model, "C11", only="load_custom_model")
     make_source_markers(reg, tier)
     bounded_history(reg)
     reg.assume("cache invariant: a library under a cache name was produced by make_dll for the (id, tag, precision) of that "
